@@ -241,6 +241,43 @@ Arguments svalue : clear implicits.
 Arguments sopdef : clear implicits.
 Arguments sextension : clear implicits.
 
+(* ---- several extensions and definition objects handed to add_* more than once ----
+   The same Python object may be added to different extensions.  add_* mutates an unowned object (or
+   one already owned by the receiving extension) in place, and stores a COPY when the object is owned
+   by another extension (ext.py after the C10 fix); the caller's handle then keeps denoting the first
+   owner's object.  Owners are compared by name: the extensions of a world have distinct names. *)
+Section Shared.
+  Context {T V M : Type}.
+  Inductive obj := OType (t : atypedef) | OOp (o : aopdef T M) | OValue (v : avalue V).
+  Record world := { w_exts : list (extension T V M); w_objs : list obj }.
+  Definition obj_owner (o : obj) : option name :=
+    match o with OType t => atd_owner t | OOp d => aod_owner d | OValue v => av_owner v end.
+  Fixpoint update {A} (l : list A) (i : nat) (x : A) : list A :=
+    match l, i with
+    | [], _ => []
+    | _ :: r, O => x :: r
+    | y :: r, S k => y :: update r k x
+    end.
+  Definition add_obj (e : extension T V M) (o : obj) : extension T V M * obj :=
+    match o with
+    | OType t => let (e', t') := add_type_def e t in (e', OType t')
+    | OOp d => let (e', d') := add_op_def e d in (e', OOp d')
+    | OValue v => let (e', v') := add_extension_value e v in (e', OValue v')
+    end.
+  (* add object (snd ij) to extension (fst ij) *)
+  Definition share_step (w : world) (ij : nat * nat) : world :=
+    match nth_error (w_exts w) (fst ij), nth_error (w_objs w) (snd ij) with
+    | Some e, Some o =>
+        let copied := match obj_owner o with None => false | Some n => negb (N.eqb n (e_name e)) end in
+        {| w_exts := update (w_exts w) (fst ij) (fst (add_obj e o));
+           w_objs := if copied then w_objs w else update (w_objs w) (snd ij) (snd (add_obj e o)) |}
+    | _, _ => w
+    end.
+  Definition share_run (w : world) (p : list (nat * nat)) : world := fold_left share_step p w.
+End Shared.
+Arguments obj : clear implicits.
+Arguments world : clear implicits.
+
 (* ---- payload instance used by the correspondence runs and the regenerated data: JSON trees
    (strings and float literals interned by the harness), identity codec ---- *)
 Inductive json :=
